@@ -6,7 +6,7 @@ VERIF=$(cd "$(dirname "$0")/.." && pwd)
 SRC=${UTAP_SRC:-/repo}
 ROOT=${UTAP_BUILD_ROOT:-$VERIF/.build}
 H=$VERIF/harness/cpp
-CXXF="-std=c++17 -g -O1 -fno-omit-frame-pointer -DNDEBUG -DUTAP_VERIF -Wno-everything"
+CXXF="-std=c++17 -g -O1 -fno-omit-frame-pointer -DNDEBUG -D_GLIBCXX_ASSERTIONS -DUTAP_VERIF -Wno-everything"
 SAN="-fsanitize=address,undefined -fno-sanitize-recover=undefined"
 rc=0
 newer() { # newer <target> <deps...> : true if target missing or older than any dep
